@@ -2,11 +2,14 @@
    Generic form: two premises about the immutable postings table are explicit (slicing twice = slicing once; a document's
    phrase count depends only on that document's postings, whichever of the two handles each term was read through); both
    are PROVED for every indexed corpus, giving the premise-free C20_every_interleaving / C20_schedule_eq_serial at the end.
-   PARTIAL for the runtime - what the model cannot exhibit: real preemption points, nogil sections, dict atomicity; edismax
-   and slop searches are not programs of the model.
-   Model: Conc/Conc.v (queries as programs of atomic actions on the shared state of View/Purity.v). *)
+   PARTIAL for the runtime - what the model cannot exhibit: real preemption points, nogil sections, dict atomicity; slop
+   searches are not programs of the model.
+   Model: Conc/Conc.v (queries as programs of atomic actions on the shared state of View/Purity.v);
+   Conc/Conc_Dyn.v (DYNAMIC programs: what a thread does next depends on what it has read, and a thread queries the views it
+   created itself - EDISMAX, Conc/Conc_Edismax.v); theorems for them at the end of this file. *)
 From Coq Require Import ZArith.
 From SA Require Import Base.Prelude Index.Index View.View View.Purity View.Purity_Proofs View.Purity_Indexed Index.Index_Spec Conc.Conc Conc.Conc_Proofs Conc.Conc_Indexed Conc.Conc_Indexed2.
+From SA Require Import Solr.Edismax Conc.Conc_Dyn Conc.Conc_Dyn_Proofs Conc.Conc_Edismax Conc.Conc_Dyn_Indexed.
 Open Scope N_scope.
 (* an interleaving in which a view is sliced (its handle reset) between the two term reads of a phrase query *)
 Example C20_interleaving_example :
@@ -113,3 +116,65 @@ Print Assumptions C20_schedule_eq_serial_partial.
 Print Assumptions C20_indexed_schedule_eq_serial.
 Print Assumptions C20_indexed_fresh.
 Print Assumptions C20_schedule_eq_serial.
+
+(* ================= DYNAMIC programs: edismax and any other client code over queries =================
+   A thread runs a program over whole queries (term frequencies with ranges, phrases, docfreq, scores of terms and of
+   phrases, selections) with arbitrary pure computation in between; what it asks next may depend on what it was
+   answered, and it may query the views it created itself, held BY REFERENCE (Conc/Conc_Dyn.v: qprog, compile).  Every
+   query is executed as the atomic actions of Conc.v.  qprog_hf is the HISTORY-FREE evaluation of the program: every
+   query answered by the pure functions of View/View.v on immutable descriptors.
+   Every non-empty indexed corpus, any pool reached by ANY history, ANY such programs, ANY schedule: a finished thread
+   holds the history-free evaluation; a schedule that lets every thread finish gives the serial results. *)
+Theorem C20_every_interleaving_dynamic : forall docs (T : Type) bs ix cg ops outs p0 (qps : list (qprog T)),
+  wf_docs docs -> docs <> [] -> index false bs docs = AOk ix ->
+  run (init_pool ix cg) ops = (outs, p0) ->
+  (forall sched p' ths', drun_sched p0 (map (qspawn p0) qps) sched = (p', ths') ->
+     forall i qp th r, nth_error qps i = Some qp -> nth_error ths' i = Some th -> dresult th = Some r ->
+       r = qprog_hf p0 qp) /\
+  (forall s, dall_done (snd (drun_sched p0 (map (qspawn p0) qps) s)) ->
+     dresults (snd (drun_sched p0 (map (qspawn p0) qps) s))
+     = dresults (snd (drun_sched p0 (map (qspawn p0) qps) (dserial_schedule p0 (map (qspawn p0) qps)))) /\
+     dresults (snd (drun_sched p0 (map (qspawn p0) qps) s)) = map (fun qp => Some (qprog_hf p0 qp)) qps).
+Proof. exact (@indexed_C20_dynamic). Qed.
+Print Assumptions C20_every_interleaving_dynamic.
+
+(* threads running EDISMAX (solr.py 262-366; general multi-field query, any boosts / mm / tie / pf / pf2 / pf3; the fields
+   are arrays of the pool): in every interleaving a finished thread holds Solr/Edismax.v's edismax on the immutable
+   descriptors of its field arrays (the function C09 / C10 are about); finishing schedules give the serial results *)
+Theorem C20_edismax_threads : forall docs bs ix cg ops outs p0 (es : list ethread),
+  wf_docs docs -> docs <> [] -> index false bs docs = AOk ix ->
+  run (init_pool ix cg) ops = (outs, p0) ->
+  Forall (fun e => fields_at p0 (et_fields e)) es ->
+  (forall sched p' ths', drun_sched p0 (map (qspawn p0) (map et_prog es)) sched = (p', ths') ->
+     forall i e th r, nth_error es i = Some e -> nth_error ths' i = Some th -> dresult th = Some r ->
+       r = et_answer e) /\
+  (forall s, dall_done (snd (drun_sched p0 (map (qspawn p0) (map et_prog es)) s)) ->
+     dresults (snd (drun_sched p0 (map (qspawn p0) (map et_prog es)) s))
+     = dresults (snd (drun_sched p0 (map (qspawn p0) (map et_prog es))
+                        (dserial_schedule p0 (map (qspawn p0) (map et_prog es))))) /\
+     dresults (snd (drun_sched p0 (map (qspawn p0) (map et_prog es)) s)) = map (fun e => Some (et_answer e)) es).
+Proof. exact indexed_edismax_threads. Qed.
+Print Assumptions C20_edismax_threads.
+
+(* the history-free evaluation of the edismax program IS Solr/Edismax.v's edismax (avoid_copies arrays: every array of a
+   reachable pool) *)
+Theorem C20_edismax_program_is_edismax : forall p0 idf n fields mm tie pf pf2 pf3, fields_at p0 fields ->
+  Forall (fun f => a_avoid_copies (ef_arr (qf_ef f)) = true) fields ->
+  qprog_hf p0 (q_edismax idf n fields 0 mm tie pf pf2 pf3) = edismax idf n (equery_of fields mm tie pf pf2 pf3).
+Proof. exact q_edismax_hf. Qed.
+Print Assumptions C20_edismax_program_is_edismax.
+
+(* the serial schedule of dynamic programs always lets every thread finish (no premise) *)
+Theorem C20_dynamic_serial_finishes : forall (T : Type) p (ths : list (dthread T)),
+  dall_done (snd (drun_sched p ths (dserial_schedule p ths))).
+Proof. exact (@dserial_all_done). Qed.
+Print Assumptions C20_dynamic_serial_finishes.
+
+(* the static programs of Conc.v are dynamic programs: same pools, same threads, same results, same serial schedule *)
+Theorem C20_static_programs_embed : forall sched p ths,
+  drun_sched p (map dthread_of_thread ths) sched
+  = (let '(p', ths') := run_sched p ths sched in (p', map dthread_of_thread ths')) /\
+  dresults (map dthread_of_thread ths) = results ths /\
+  dserial_schedule p (map dthread_of_thread ths) = serial_schedule ths.
+Proof. intros sched p ths. exact (conj (drun_sched_embed sched p ths) (conj (dresults_embed ths) (dserial_schedule_embed p ths))). Qed.
+Print Assumptions C20_static_programs_embed.
